@@ -249,7 +249,7 @@ func oracleC15(input string) string {
 	return ""
 }
 
-var oracles = map[string]func(string) string{"C16": oracleC16, "C08": oracleC08, "C07": oracleC07, "C11": oracleC11, "C15": oracleC15}
+var oracles = map[string]func(string) string{"C16": oracleC16, "C08": oracleC08, "C07": oracleC07, "C11": oracleC11, "C15": oracleC15, "C06": oracleC06}
 
 func main() {
 	if len(os.Args) < 3 {
@@ -283,7 +283,63 @@ func main() {
 	}
 }
 
+func searchC06(maxFail int) {
+	var total int64
+	var mu sync.Mutex
+	var fails []string
+	type job struct {
+		prog []absStmt
+		l    layout
+	}
+	work := make(chan job, 1024)
+	var wg sync.WaitGroup
+	for i := 0; i < runtime.NumCPU(); i++ {
+		wg.Add(1)
+		go func() {
+			defer wg.Done()
+			for j := range work {
+				atomic.AddInt64(&total, 1)
+				if text, msg := oracleC06Program(j.prog, j.l); msg != "" {
+					mu.Lock()
+					if len(fails) < maxFail {
+						fails = append(fails, fmt.Sprintf("%q: %s", text, msg))
+					}
+					mu.Unlock()
+				}
+			}
+		}()
+	}
+	ls := layouts()
+	for _, prog := range programs() {
+		for _, l := range ls {
+			if os.Getenv("PARSEPROBE_NO_CRLF") != "" && l.nl != "\n" {
+				continue
+			}
+			mu.Lock()
+			stop := len(fails) >= maxFail
+			mu.Unlock()
+			if stop {
+				break
+			}
+			work <- job{prog, l}
+		}
+	}
+	close(work)
+	wg.Wait()
+	fmt.Printf("SEARCH prop=C06 programs=%d layouts=%d evaluated=%d failures=%d\n", len(programs()), len(ls), total, len(fails))
+	for _, f := range fails {
+		fmt.Println("FAILING-INPUT", f)
+	}
+	if len(fails) > 0 {
+		os.Exit(1)
+	}
+}
+
 func search(prop string, or func(string) string, depth, maxFail int) {
+	if prop == "C06" {
+		searchC06(maxFail)
+		return
+	}
 	var total, nontrivial int64
 	var mu sync.Mutex
 	var fails []string
@@ -323,12 +379,25 @@ func search(prop string, or func(string) string, depth, maxFail int) {
 			gen(cur+a, d-1)
 		}
 	}
-	for pi, p := range prefixes {
-		d := depth
-		if pi > 0 {
-			d = depth - 1
+	if prop != "C06" {
+		for pi, p := range prefixes {
+			d := depth
+			if pi > 0 {
+				d = depth - 1
+			}
+			gen(p, d)
 		}
-		gen(p, d)
+	}
+	if prop == "C07" || prop == "C11" || prop == "C15" || prop == "C06" {
+		// structured inputs: comment/blank/statement line sequences and the generated programs of C06
+		// in all their layouts
+		lineSequences(depth, func(s string) { work <- s })
+		ls := layouts()
+		for _, prog := range programs() {
+			for _, l := range ls {
+				work <- render(prog, l)
+			}
+		}
 	}
 	close(work)
 	wg.Wait()
